@@ -122,6 +122,34 @@ const Changelog = `- semver: "1.1.0-1"
     urgency: high
 `
 
+// UnorderedChangelog: versions 1.0.1, 2.0.0, 0.9.0-rc1, 2.0.0, 1.5.0 in this order.
+const UnorderedChangelog = `- semver: "1.0.1"
+  date: "2009-12-08T22:00:00Z"
+  packager: "Jane Roe <jane@example.com>"
+  changes:
+    - note: "note of 1.0.1 (first in the file)"
+- semver: "2.0.0"
+  date: "2009-11-10T23:00:00Z"
+  packager: "Jane Roe <jane@example.com>"
+  changes:
+    - note: "note of 2.0.0 (second in the file)"
+- semver: "0.9.0-rc1"
+  date: "2009-10-01T10:00:00Z"
+  packager: "Jane Roe <jane@example.com>"
+  changes:
+    - note: "note of 0.9.0-rc1 (third in the file)"
+- semver: "2.0.0"
+  date: "2009-09-01T09:00:00Z"
+  packager: "Jane Roe <jane@example.com>"
+  changes:
+    - note: "note of the second 2.0.0 (fourth in the file)"
+- semver: "1.5.0"
+  date: "2009-08-01T09:00:00Z"
+  packager: "Jane Roe <jane@example.com>"
+  changes:
+    - note: "note of 1.5.0 (last in the file)"
+`
+
 // BigChangelog renders 240 changelog entries (about 40 KB as Debian changelog text, about 2 KB gzipped).
 func BigChangelog() string {
 	var b strings.Builder
@@ -260,6 +288,8 @@ func Spec(big int) []Node {
   changes:
     - note: "entry without date and packager"
 `)})
+	// a changelog whose entries are not in descending version order (kept as written), two of them with equal versions
+	ns = append(ns, Node{Rel: "changelog-unordered.yaml", Kind: "file", Mode: 0o644, Data: []byte(UnorderedChangelog)})
 	// a changelog file without entries
 	ns = append(ns, Node{Rel: "changelog-empty.yaml", Kind: "file", Mode: 0o644, Data: []byte("[]\n")})
 	// a long changelog: its text is many times larger than its gzip form
